@@ -141,6 +141,7 @@ impl Files {
             .replace("@BIG", &p("big.dlt"))
             .replace("@B", &p("b.dlt"))
             .replace("@A", &p("a.dlt"))
+            .replace("@C", &p("c.dlt"))
             .replace("@EMPTY", &p("empty.dlt"))
             .replace("@NOFILE", &p("nofile.dlt"))
             .replace("@DIR", &p("sub"))
@@ -405,6 +406,8 @@ struct Cmd {
     sleep_ms: u64,
     /// before sending: wait (at most 90 s) until the lifecycle frames announce at least this many messages (0 = do not wait)
     wait_lc: u32,
+    /// send a sentinel (unknown command) right behind this command and count the reply frames up to its notice
+    probe: bool,
     frame: String,
     orc: OrcS,
 }
@@ -474,7 +477,18 @@ fn classify_reply(r: &str) -> Option<O> {
             _ => None,
         };
     }
-    if let Some(rest) = r.strip_prefix("err: ") {
+    if r.starts_with("err:") {
+        // the wording after `err:` is not part of the property: a recognised text gives the precise kind, anything
+        // else the generic kind 99 (EOther), which agrees with every err: kind of the model
+        return Some(classify_err_text(r).unwrap_or_else(|| leaf3(1, 99, vec![])));
+    }
+    None
+}
+
+/// the error kinds told apart by the wording of the current implementation; None = wording not recognised
+fn classify_err_text(r: &str) -> Option<O> {
+    {
+        let rest = r.strip_prefix("err: ")?;
         let (cmd, arg) = rest.split_once(' ').unwrap_or((rest, ""));
         let e = |k: u128| Some(leaf3(1, k, vec![]));
         let eid = |k: u128, id: u128| Some(leaf3(1, k, vec![O::L(id)]));
@@ -551,12 +565,11 @@ fn classify_reply(r: &str) -> Option<O> {
         if arg.starts_with("failed parsing params with '") {
             return e(19);
         }
-        if cmd == "fs" {
+        if cmd == "fs" && (arg.starts_with("params misses cmd or path") || arg.starts_with("cmd '") || arg.starts_with("path '") || arg.contains("corrupt zip file")) {
             return e(20);
         }
         return None;
     }
-    None
 }
 
 // ---------------------------------------------------------------- the reference tracker (what the replies imply)
@@ -604,6 +617,11 @@ fn state_label(tr: &Tracker) -> String {
     };
     base.to_string()
 }
+/// commands whose handler iterates over a collection to find a match (plugins by name, streams by id) or builds
+/// one (filters): their reply count is always checked exactly with a sentinel
+fn wants_probe(frame: &str) -> bool {
+    matches!(command_of(frame), "plugin_cmd" | "stop" | "stream_change_window" | "stream_binary_search" | "stream_search" | "stream" | "query")
+}
 fn cmd_label(frame: &str) -> &'static str {
     match command_of(frame) {
         "open" => "open",
@@ -642,6 +660,7 @@ enum Ev {
 }
 
 struct CmdResult {
+    extra: Vec<String>, // further reply frames to this command (seen before the notice of the sentinel behind it)
     state: String, // model state the command met (see state_label)
     pre: Vec<Ev>,
     nmsgs: u32,
@@ -681,13 +700,24 @@ fn oracle_cmd(tr: &Tracker, cmd: &Cmd, reply: &str, cls: &Option<O>, viol: &mut 
         return;
     }
     // the reply belongs to this command (exactly-one-reply bookkeeping)
-    let echo_ok = if command == "close" { reply == "ok: 'close'!" || reply.starts_with("err: close ") } else { reply[if is_ok { 4 } else { 5 }..].starts_with(command) };
-    if !echo_ok {
-        fail("one_reply", format!("reply does not belong to the command: {:?}", reply));
+    // an ok: reply is machine readable and names its command (exactly-one-reply bookkeeping; the text after
+    // err: is free, there the sentinels do the counting)
+    if is_ok {
+        let echo_ok = if command == "close" { reply == "ok: 'close'!" } else { reply[3..].trim_start().starts_with(command) };
+        if !echo_ok {
+            fail("one_reply", format!("reply does not belong to the command: {:?}", reply));
+        }
+        if cls.is_none() {
+            fail("reply_form", format!("ok: reply without the machine readable part of its command {:?}", reply));
+        }
     }
-    if cls.is_none() {
-        fail("reply_form", format!("unclassified reply {:?}", reply));
-    }
+    let err_kind: Option<u128> = match cls {
+        Some(O::T(v)) => match (&v[0], &v[1]) {
+            (O::L(1), O::L(k)) => Some(*k),
+            _ => None,
+        },
+        _ => None,
+    };
     match command {
         "open" => {
             if tr.open && is_ok {
@@ -741,7 +771,7 @@ fn oracle_cmd(tr: &Tracker, cmd: &Cmd, reply: &str, cls: &Option<O>, viol: &mut 
                     if live && command == "stop" && !is_ok {
                         fail("stream_id_usable_exactly_while_live", format!("stop of live id {} answered {:?}", id, reply));
                     }
-                    if live && (reply.contains("not found!") || reply.contains("No file opened!")) {
+                    if live && matches!(err_kind, Some(11) | Some(12) | Some(14)) {
                         fail("stream_id_usable_exactly_while_live", format!("live id {} reported unknown: {:?}", id, reply));
                     }
                 }
@@ -990,6 +1020,327 @@ const UNKNOWN: &[&str] = &[
     "quit", "", " ", "  ", "OPEN {}", "open{}", "Close", "stream_window 1 1,2", "stop\t1", "öpen", " close", "close\n", "stream_stop 1", "ok: open", "err:", "\"close\"", "help me", "pause\u{a0}", "close\0",
 ];
 
+// ---- composed bodies: the parameter space of the JSON bodies (ground truth computed alongside)
+/// plugin configs of `open`: (config, what get_plugin makes of it: Some(name in the plugin state, has apply_command))
+const PLUGIN_CFGS: &[(&str, Option<(&str, bool)>)] = &[
+    (r#"{"name":"FileTransfer"}"#, Some(("FileTransfer", true))),
+    (r#"{"name":"FileTransfer","allowSave":false}"#, Some(("FileTransfer", true))),
+    (r#"{"name":"FileTransfer","apid":"toolong","keepFLDA":true}"#, Some(("FileTransfer", true))),
+    (r#"{"name":"FileTransfer","allowSave":3}"#, None),
+    (r#"{"name":"FileTransfer","enabled":false}"#, None),
+    (r#"{"name":"FileTransfer","enabled":"x"}"#, None),
+    (r#"{"name":"Rewrite","rewrites":[]}"#, Some(("Rewrite", false))),
+    (r#"{"rewrites":[],"name":"Rewrite","enabled":true}"#, Some(("Rewrite", false))),
+    (r#"{"name":"Rewrite"}"#, None),
+    (r#"{"name":"Rewrite","rewrites":3}"#, None),
+    (r#"{"name":"Rewrite","rewrites":[],"enabled":null}"#, None),
+    (r#"{"name":"SomeIp","fibexDir":"@DIR"}"#, Some(("SomeIp", false))),
+    (r#"{"name":"SomeIp"}"#, None),
+    (r#"{"name":"NonVerbose","fibexDir":"@DIR"}"#, Some(("NonVerbose", false))),
+    (r#"{"name":"NonVerbose"}"#, None),
+    (r#"{"name":"CAN","fibexDir":"@DIR"}"#, Some(("CAN", false))),
+    (r#"{"name":"CAN"}"#, None),
+    (r#"{"name":"Muniic"}"#, None),
+    (r#"{"name":"Export"}"#, None),
+    (r#"{"name":"Export","exportFileName":"@NOFILE"}"#, None),
+    (r#"{"name":"rewrite","rewrites":[]}"#, None),
+    (r#"{"name":"Nope"}"#, None),
+    (r#"{"name":"\u00fcnknown \"x\""}"#, None),
+    (r#"{"name":5}"#, None),
+    (r#"{}"#, None),
+];
+const PLUGIN_NAMES: &[&str] = &["FileTransfer", "Rewrite", "SomeIp", "NonVerbose", "CAN", "Muniic", "Export", "Nope", "filetransfer", "", "File Transfer", "\\u00fcnknown"];
+
+/// `open` body composed from files list x options x plugin list
+fn compose_open(rng: &mut Rng, files: &Files) -> (String, OrcS) {
+    let mut ok = true;
+    let mut keys: Vec<String> = vec![];
+    // files
+    let fl: &[&str] = *rng.pick(&[
+        &["@A"][..], &["@A"], &["@A"], &["@B"], &["@A", "@B"], &["@B", "@A"], &["@A", "@A"], &["@A", "@A", "@B", "@B"], &["@B", "@A", "@C"],
+        &["@NOFILE", "@A"], &["@EMPTY", "@B", "@DIR"], &["@NOFILE"], &["@EMPTY", "@DIR"], &[],
+    ]);
+    match rng.below(14) {
+        0 => {
+            ok = false;
+            keys.push(format!(r#""files":{}"#, rng.pick(&[r#""@A""#, "3", "null", r#"{"0":"@A"}"#, r#"["@A",3]"#, r#"[["@A"]]"#, r#"[null]"#])));
+        }
+        1 => ok = false, // no files key
+        _ => {
+            keys.push(format!(r#""files":[{}]"#, fl.iter().map(|f| format!("\"{}\"", f)).collect::<Vec<_>>().join(",")));
+        }
+    }
+    // sort
+    let mut sort = false;
+    match rng.below(8) {
+        0 => {
+            sort = true;
+            keys.push(r#""sort":true"#.into())
+        }
+        1 => keys.push(r#""sort":false"#.into()),
+        2 => keys.push(format!(r#""sort":{}"#, rng.pick(&[r#""true""#, "1", "null", "[]", r#""time""#]))),
+        _ => {}
+    }
+    // collect
+    let mut mode = 0u8;
+    match rng.below(10) {
+        0 => keys.push(format!(r#""collect":{}"#, rng.pick(&["true", r#""all""#, r#""true""#, "3", "null", "[]", "{}"]))),
+        1 => {
+            mode = 2;
+            keys.push(format!(r#""collect":{}"#, rng.pick(&["false", r#""none""#, r#""false""#])))
+        }
+        2 => {
+            if rng.chance(1, 2) {
+                ok = false;
+                keys.push(format!(r#""collect":{}"#, rng.pick(&[r#""bla""#, r#""""#, r#""ALL""#, r#""one_pass""#])))
+            }
+        }
+        _ => {}
+    }
+    // plugins: 0..3 configs, duplicates wanted
+    let mut plugins: Vec<(String, bool)> = vec![];
+    match rng.below(10) {
+        0 => {}
+        1 => keys.push(format!(r#""plugins":{}"#, rng.pick(&["[]", "null"]))),
+        2 => {
+            // wrong type: refused (after the files were looked at)
+            ok = false;
+            keys.push(format!(r#""plugins":{}"#, rng.pick(&["3", "{}", r#""FileTransfer""#, r#"[3]"#, r#"[{"name":"FileTransfer"},null]"#, r#"[[]]"#, r#"["Rewrite"]"#])));
+        }
+        _ => {
+            let k = rng.range(1, 3);
+            let mut cfgs: Vec<&(&str, Option<(&str, bool)>)> = vec![];
+            for i in 0..k {
+                if i > 0 && rng.chance(1, 2) {
+                    // duplicate of an earlier one (same config or another config of the same plugin)
+                    let prev = *rng.pick(&cfgs);
+                    let same: Vec<&(&str, Option<(&str, bool)>)> = PLUGIN_CFGS.iter().filter(|c| c.1.is_some() && c.1.map(|x| x.0) == prev.1.map(|x| x.0)).collect();
+                    cfgs.push(if same.is_empty() || rng.chance(1, 2) { prev } else { *rng.pick(&same) });
+                } else if rng.chance(2, 3) {
+                    let act: Vec<&(&str, Option<(&str, bool)>)> = PLUGIN_CFGS.iter().filter(|c| c.1.is_some()).collect();
+                    cfgs.push(*rng.pick(&act));
+                } else {
+                    cfgs.push(rng.pick(PLUGIN_CFGS));
+                }
+            }
+            for c in &cfgs {
+                if let Some((n, h)) = c.1 {
+                    plugins.push((n.to_string(), h));
+                }
+            }
+            keys.push(format!(r#""plugins":[{}]"#, cfgs.iter().map(|c| c.0).collect::<Vec<_>>().join(",")));
+        }
+    }
+    if rng.chance(1, 5) {
+        keys.push((*rng.pick(&[r#""foo":1"#, r#""schl\u00fcssel":"w\u00e4rt""#, r#""Files":["@NOFILE"]"#, r#""window":[0,1]"#])).to_string());
+    }
+    // key order is free
+    for i in (1..keys.len()).rev() {
+        let j = rng.below(i as u64 + 1) as usize;
+        keys.swap(i, j);
+    }
+    let frame = files.subst(&format!("open {{{}}}", keys.join(if rng.chance(1, 4) { " , " } else { "," })));
+    let (_, nfiles, _) = open_facts(&frame);
+    if nfiles == 0 {
+        ok = false;
+    }
+    (frame, if ok { OrcS::Open(Some((mode, sort, plugins))) } else { OrcS::Open(None) })
+}
+
+/// filters of stream / query / stream_search bodies: (json, kind 0 pos 1 neg 2 marker 3 event, enabled, matches every message)
+const FILTERS: &[(&str, u8, bool, bool)] = &[
+    (r#"{"type":0,"ecu":"ECUR"}"#, 0, true, true),
+    (r#"{"ecu":"ECUR","type":0,"enabled":true}"#, 0, true, true),
+    (r#"{"type":0,"ecu":"XXXX"}"#, 0, true, false),
+    (r#"{"type":1,"ecu":"NONE"}"#, 1, true, false),
+    (r#"{"type":1,"ecu":"ECUR"}"#, 1, true, true),
+    (r#"{"type":3,"ecu":"ECUR"}"#, 3, true, true),
+    (r#"{"type":3,"ecu":"XXXX"}"#, 3, true, false),
+    (r#"{"type":2,"ecu":"ECUR"}"#, 2, true, true),
+    (r#"{"type":0,"ecu":"ECUR","enabled":false}"#, 0, false, true),
+    (r#"{"type":1,"ecu":"ECUR","enabled":false}"#, 1, false, true),
+];
+const FILTERS_BAD: &[&str] = &[r#"{"type":99}"#, "3", r#"{"type":"0","ecu":"ECUR"}"#, "{}", "null", r#"{"type":-1}"#, r#"[{"type":0}]"#];
+
+/// (json of the filters array, ok?, #pos, #neg, #event, filter class 0 inactive / 1 all match / 2 none)
+fn compose_filters(rng: &mut Rng) -> (String, bool, u64, u64, u64, u64) {
+    let k = rng.below(5);
+    let mut items: Vec<&(&str, u8, bool, bool)> = vec![];
+    let mut parts: Vec<String> = vec![];
+    let mut ok = true;
+    for i in 0..k {
+        if rng.chance(1, 12) {
+            ok = false;
+            parts.push((*rng.pick(FILTERS_BAD)).to_string());
+        } else {
+            let f = if i > 0 && !items.is_empty() && rng.chance(1, 3) { *rng.pick(&items) } else { rng.pick(FILTERS) };
+            items.push(f);
+            parts.push(f.0.to_string());
+        }
+    }
+    let en: Vec<&&(&str, u8, bool, bool)> = items.iter().filter(|f| f.2).collect();
+    let cnt = |k: u8| en.iter().filter(|f| f.1 == k).count() as u64;
+    let (np, nn, ne) = (cnt(0), cnt(1), cnt(3));
+    let any = |k: u8| en.iter().any(|f| f.1 == k && f.3);
+    let all_match = (np == 0 || any(0)) && !any(1) && (ne == 0 || any(3));
+    let class = if np + nn + ne == 0 { 0 } else if all_match { 1 } else { 2 };
+    (format!("[{}]", parts.join(",")), ok, np, nn, ne, class)
+}
+
+const NUMS: &[(&str, Option<u64>)] = &[
+    ("0", Some(0)), ("1", Some(1)), ("3", Some(3)), ("5", Some(5)), ("20", Some(20)), ("1000", Some(1000)), ("18446744073709551615", Some(18446744073709551615)),
+    ("18446744073709551616", None), ("-1", None), ("1.5", None), ("1e3", None), ("\"7\"", None), ("null", None), ("true", None), ("[]", None), ("-0", None),
+];
+
+/// stream / query body composed from window x filters x flags x unknown keys
+fn compose_stream(rng: &mut Rng) -> (String, OrcS) {
+    let mut ok = true;
+    let mut keys: Vec<String> = vec![];
+    let (mut ws, mut we) = (0u64, 20u64);
+    match rng.below(8) {
+        0 | 1 => {}
+        2 => {
+            ok = false;
+            keys.push(format!(r#""window":{}"#, rng.pick(&["[1]", "[1,2,3]", "[]", "5", r#""0,5""#, "{}", "true"])));
+        }
+        3 => keys.push(r#""window":null"#.into()),
+        _ => {
+            let a = rng.pick(NUMS);
+            let b = rng.pick(NUMS);
+            ws = a.1.unwrap_or(0);
+            we = b.1.unwrap_or(20);
+            keys.push(format!(r#""window":[{},{}]"#, a.0, b.0));
+        }
+    }
+    let (mut np, mut nn, mut ne, mut class) = (0, 0, 0, 0);
+    match rng.below(6) {
+        0 | 1 => {}
+        2 => {
+            if rng.chance(1, 2) {
+                keys.push(r#""filters":null"#.into())
+            } else {
+                ok = false;
+                keys.push(format!(r#""filters":{}"#, rng.pick(&["3", "{}", r#""x""#, "true"])))
+            }
+        }
+        _ => {
+            let f = compose_filters(rng);
+            ok &= f.1;
+            np = f.2;
+            nn = f.3;
+            ne = f.4;
+            class = f.5;
+            keys.push(format!(r#""filters":{}"#, f.0));
+        }
+    }
+    let mut one_pass = false;
+    match rng.below(8) {
+        0 => {
+            one_pass = true;
+            keys.push(r#""one_pass":true"#.into())
+        }
+        1 => keys.push(format!(r#""one_pass":{}"#, rng.pick(&["false", r#""true""#, "1", "null"]))),
+        _ => {}
+    }
+    // large windows only as binary streams (a text stream would send one frame per message)
+    if we.saturating_sub(ws) > 1000 || rng.chance(1, 2) {
+        keys.push(r#""binary":true"#.into());
+    } else if rng.chance(1, 3) {
+        keys.push(format!(r#""binary":{}"#, rng.pick(&["false", r#""x""#, "null", "0"])));
+    }
+    if rng.chance(1, 4) {
+        keys.push((*rng.pick(&[r#""sort":"time""#, r#""type":"snapshot""#, r#""w\u00efndow":[1,2]"#, r#""Window":[7,8]"#, r#""filter":[3]"#])).to_string());
+    }
+    for i in (1..keys.len()).rev() {
+        let j = rng.below(i as u64 + 1) as usize;
+        keys.swap(i, j);
+    }
+    (format!("{{{}}}", keys.join(",")), if ok { OrcS::Stream(Some((one_pass, ws, we, np, nn, ne, class))) } else { OrcS::Stream(None) })
+}
+
+/// stream_search body: (json, accepted?)
+fn compose_search(rng: &mut Rng) -> (String, bool) {
+    let mut ok = true;
+    let mut keys: Vec<String> = vec![];
+    for key in ["start_idx", "max_results"] {
+        match rng.below(4) {
+            0 => {}
+            1 => {
+                // only numbers and null are accepted
+                let v = *rng.pick(&[r#""x""#, "[1]", "{}", "true"]);
+                ok = false;
+                keys.push(format!(r#""{}":{}"#, key, v));
+            }
+            _ => {
+                let n = rng.pick(NUMS);
+                if !(n.0.starts_with(|c: char| c.is_ascii_digit() || c == '-') || n.0 == "null") {
+                    ok = false;
+                }
+                keys.push(format!(r#""{}":{}"#, key, n.0));
+            }
+        }
+    }
+    match rng.below(4) {
+        0 => {}
+        1 => {
+            if rng.chance(1, 2) {
+                keys.push(r#""filters":null"#.into())
+            } else {
+                ok = false;
+                keys.push(format!(r#""filters":{}"#, rng.pick(&["3", "{}", r#""x""#])))
+            }
+        }
+        _ => {
+            let f = compose_filters(rng);
+            ok &= f.1;
+            keys.push(format!(r#""filters":{}"#, f.0));
+        }
+    }
+    if rng.chance(1, 5) {
+        keys.push((*rng.pick(&[r#""foo":[1,2]"#, r#""\u00fc":1"#, r#""startIdx":"x""#])).to_string());
+    }
+    for i in (1..keys.len()).rev() {
+        let j = rng.below(i as u64 + 1) as usize;
+        keys.swap(i, j);
+    }
+    (format!("{{{}}}", keys.join(",")), ok)
+}
+
+/// plugin_cmd body aimed at the configured plugins (0, 1 or several of them carry the name)
+fn compose_plugin_cmd(rng: &mut Rng, tr: &Tracker, files: &Files) -> (String, OrcS) {
+    let name: String = if !tr.plugins.is_empty() && rng.chance(2, 3) { rng.pick(&tr.plugins).0.clone() } else { (*rng.pick(PLUGIN_NAMES)).to_string() };
+    let mut keys: Vec<String> = vec![];
+    let mut shape = 3u8;
+    match rng.below(8) {
+        0 => shape = 2,
+        1 => {
+            shape = 2;
+            keys.push(format!(r#""name":{}"#, rng.pick(&["5", "null", r#"["FileTransfer"]"#, "true"])));
+        }
+        _ => keys.push(format!(r#""name":"{}""#, name)),
+    }
+    match rng.below(8) {
+        0 => shape = 2,
+        1 => {
+            shape = 2;
+            keys.push(format!(r#""cmd":{}"#, rng.pick(&["5", "null", "{}", "false"])));
+        }
+        _ => keys.push(format!(r#""cmd":"{}""#, rng.pick(&["save", "save", "foo", "", "SAVE", "s\\u00e4ve"]))),
+    }
+    if rng.chance(1, 2) {
+        keys.push(format!(r#""params":{}"#, rng.pick(&[r#"{"saveAs":"@NOFILE"}"#, r#"{"saveAs":3}"#, "{}", "3", "null", r#"{"saveAs":"@DIR"}"#])));
+    }
+    if rng.chance(1, 2) {
+        keys.push(format!(r#""cmdCtx":{}"#, rng.pick(&[r#"{"save":{"idx":0}}"#, r#"{"save":{"idx":-1}}"#, r#"{"save":3}"#, "{}", "[]", r#"{"save":{"idx":18446744073709551615}}"#])));
+    }
+    for i in (1..keys.len()).rev() {
+        let j = rng.below(i as u64 + 1) as usize;
+        keys.swap(i, j);
+    }
+    let n = if shape == 3 { serde_json::from_str::<String>(&format!("\"{}\"", name)).unwrap_or(name.clone()) } else { String::new() };
+    (files.subst(&format!("plugin_cmd {{{}}}", keys.join(","))), OrcS::Json(shape, n, false))
+}
+
 fn open_ok_cmd(rng: &mut Rng, set: &[(&str, u8, bool, &[(&str, bool)])], files: &Files) -> (String, OrcS) {
     let t = rng.pick(set);
     (format!("open {}", files.subst(t.0)), OrcS::Open(Some((t.1, t.2, t.3.iter().map(|(n, c)| (n.to_string(), *c)).collect()))))
@@ -1034,14 +1385,16 @@ fn gen_cmd(rng: &mut Rng, cfg: &GenCfg, tr: &Tracker, files: &Files, pos: usize)
     // right after an archive open (no file stream yet) the out-of-order commands are the interesting ones: open again, close
     if tr.open && tr.archive && !tr.extract_done && rng.chance(1, 3) {
         let (frame, orc) = if rng.chance(2, 3) { open_ok_cmd(rng, OPEN_OK, files) } else { open_ok_cmd(rng, OPEN_ARCHIVE, files) };
-        return Cmd { sleep_ms: if rng.chance(1, 2) { 0 } else { rng.range(20, 200) }, wait_lc: 0, frame, orc };
+        return Cmd { sleep_ms: if rng.chance(1, 2) { 0 } else { rng.range(20, 200) }, wait_lc: 0, probe: false, frame, orc };
     }
     let want_open = !tr.open && (pos == 0 || rng.chance(3, 5));
     let choice = if want_open && !cfg.malformed_bias { 0 } else { rng.below(100) };
     let (frame, orc): (String, OrcS) = match choice {
         0..=9 => {
             // open
-            if rng.chance(1, 4) {
+            if !cfg.one_pass && !cfg.big && rng.chance(2, 5) {
+                compose_open(rng, files)
+            } else if rng.chance(1, 4) {
                 (format!("open {}", files.subst(*rng.pick(OPEN_ERR))).trim_end().to_string(), OrcS::Open(None))
             } else if cfg.one_pass {
                 open_ok_cmd(rng, OPEN_ONEPASS, files)
@@ -1057,7 +1410,10 @@ fn gen_cmd(rng: &mut Rng, cfg: &GenCfg, tr: &Tracker, files: &Files, pos: usize)
         18..=24 => ((*rng.pick(if cfg.one_pass { &["resume", "resume", "resume", "pause", "resume x"] } else { &["pause", "resume", "pause ", "resume x", "pause {\"a\":1}"] })).to_string(), OrcS::None),
         25..=44 => {
             let c = if rng.chance(2, 3) { "stream" } else { "query" };
-            if rng.chance(1, 5) {
+            if !cfg.one_pass && rng.chance(2, 5) {
+                let (b, o) = compose_stream(rng);
+                (format!("{} {}", c, b), o)
+            } else if rng.chance(1, 5) {
                 let b = rng.pick(STREAM_ERR);
                 (if b.is_empty() && rng.chance(1, 2) { c.to_string() } else { format!("{} {}", c, b) }, OrcS::Stream(None))
             } else {
@@ -1101,13 +1457,17 @@ fn gen_cmd(rng: &mut Rng, cfg: &GenCfg, tr: &Tracker, files: &Files, pos: usize)
         }
         75..=84 => {
             let id = pick_id(rng);
-            if rng.chance(2, 3) {
+            if rng.chance(2, 5) {
+                let (b, ok) = compose_search(rng);
+                (format!("stream_search {} {}", id, b), OrcS::Id(ok))
+            } else if rng.chance(2, 3) {
                 (format!("stream_search {} {}", id, rng.pick(SEARCH_OK)), OrcS::Id(true))
             } else {
                 let b = rng.pick(SEARCH_ERR);
                 (if b.is_empty() { format!("stream_search {}", id) } else { format!("stream_search {} {}", id, b) }, OrcS::Id(false))
             }
         }
+        85..=90 if rng.chance(3, 5) => compose_plugin_cmd(rng, tr, files),
         85..=90 => {
             let t = rng.pick(PLUGIN_BODIES);
             let body = files.subst(t.0);
@@ -1120,7 +1480,8 @@ fn gen_cmd(rng: &mut Rng, cfg: &GenCfg, tr: &Tracker, files: &Files, pos: usize)
         }
         _ => ((*rng.pick(UNKNOWN)).to_string(), OrcS::None),
     };
-    Cmd { sleep_ms, wait_lc: 0, frame, orc }
+    let probe = wants_probe(&frame) || rng.chance(1, 2);
+    Cmd { sleep_ms, wait_lc: 0, probe, frame, orc }
 }
 
 // ---------------------------------------------------------------- running one session
@@ -1204,7 +1565,7 @@ fn run_session(plan: Plan, scratch: &Path, tag: &str) -> SessionResult {
             (Some(v), _) => v[pos].clone(),
             (_, Some((rng, cfg, files))) => {
                 if pos + 1 == total {
-                    Cmd { sleep_ms: 0, wait_lc: 0, frame: format!("zz_sentinel_{}", tag), orc: OrcS::None }
+                    Cmd { sleep_ms: 0, wait_lc: 0, probe: false, frame: format!("zz_sentinel_{}", tag), orc: OrcS::None }
                 } else {
                     gen_cmd(rng, cfg, &tr, files, pos)
                 }
@@ -1212,7 +1573,7 @@ fn run_session(plan: Plan, scratch: &Path, tag: &str) -> SessionResult {
             _ => unreachable!(),
         };
         if dead.is_some() {
-            res.results.push(CmdResult { state: "dead".into(), pre: vec![], nmsgs: tr.nmsgs, reply: None, reply_ms: 0, dead: dead.clone() });
+            res.results.push(CmdResult { extra: vec![], state: "dead".into(), pre: vec![], nmsgs: tr.nmsgs, reply: None, reply_ms: 0, dead: dead.clone() });
             res.cmds.push(cmd);
             continue;
         }
@@ -1285,8 +1646,56 @@ fn run_session(plan: Plan, scratch: &Path, tag: &str) -> SessionResult {
         } else {
             res.violations.push(("one_reply".into(), format!("frame {:?}: no reply ({})", cmd.frame, dead.clone().unwrap_or_default())));
         }
-        res.results.push(CmdResult { state: state_at_send.clone(), pre, nmsgs, reply, reply_ms, dead: dead.clone() });
+        // exact reply count: a sentinel frame (an unknown command, answered by its notice) right behind the command;
+        // every reply-class frame that arrives before the notice is a further answer to the command
+        let mut extra = vec![];
+        let mut sentinel: Option<(Cmd, CmdResult)> = None;
+        if cmd.probe && reply.is_some() && dead.is_none() {
+            let sframe = format!("zz_probe_{}_{}", tag, res.cmds.len());
+            let notice = format!("unknown command '{}'!", sframe);
+            let sstate = state_label(&tr);
+            if let Err(e) = ws.write_message(Message::Text(sframe.clone())) {
+                dead = Some(format!("write: {}", e));
+            }
+            let t1 = Instant::now();
+            let mut sreply = None;
+            while dead.is_none() {
+                match rx_one(&mut ws) {
+                    Rx::Reply(s) => {
+                        if s == notice {
+                            sreply = Some(s);
+                            break;
+                        }
+                        extra.push(s);
+                    }
+                    Rx::Async(a) => handle_async(a, &mut tr, &mut pending),
+                    Rx::Timeout => {
+                        if t1.elapsed() > Duration::from_secs(20) {
+                            dead = Some("no reply to the sentinel within 20 s".into());
+                        }
+                    }
+                    Rx::Closed(e) => dead = Some(e),
+                }
+            }
+            if !extra.is_empty() {
+                res.violations.push(("one_reply".into(), format!("frame {:?} was answered by {} reply frames: {:?} + {:?}", cmd.frame, 1 + extra.len(), reply, extra)));
+            }
+            if sreply.is_none() {
+                res.violations.push(("one_reply".into(), format!("sentinel behind {:?}: no notice ({})", cmd.frame, dead.clone().unwrap_or_default())));
+            }
+            let spre = std::mem::take(&mut pending);
+            tr.closed_ok_before = false;
+            sentinel = Some((
+                Cmd { sleep_ms: 0, wait_lc: 0, probe: false, frame: sframe, orc: OrcS::None },
+                CmdResult { extra: vec![], state: sstate, pre: spre, nmsgs: tr.nmsgs, reply: sreply, reply_ms: t1.elapsed().as_millis(), dead: dead.clone() },
+            ));
+        }
+        res.results.push(CmdResult { extra, state: state_at_send.clone(), pre, nmsgs, reply, reply_ms, dead: dead.clone() });
         res.cmds.push(cmd);
+        if let Some((c, r)) = sentinel {
+            res.cmds.push(c);
+            res.results.push(r);
+        }
     }
     // late frames: an additional reply would be a second answer to some command
     let until = Instant::now() + Duration::from_millis(120);
@@ -1341,7 +1750,11 @@ fn record(sink: &mut Sink, res: &SessionResult, kind: &str) {
                             tags.push(format!("reply_{}_{}", ["ok", "err", "unknown"][*c as usize], k));
                         }
                     }
-                    O::T(vec![o])
+                    let mut all = vec![o];
+                    for e in &r.extra {
+                        all.push(classify_reply(e).unwrap_or(O::T(vec![O::L(8)])));
+                    }
+                    O::T(all)
                 }
                 None => O::T(vec![O::T(vec![O::L(8)])]),
             },
@@ -1389,7 +1802,7 @@ fn record(sink: &mut Sink, res: &SessionResult, kind: &str) {
     let n_streams = res.results.iter().filter(|r| r.reply.as_deref().map_or(false, |s| s.starts_with("ok: stream ") || s.starts_with("ok: query "))).count();
     let nontrivial = n_ok_open >= 1 && n_streams >= 1 && res.cmds.len() >= 5;
     let case_json = json!({
-        "cmds": res.cmds.iter().map(|c| json!({"sleep_ms": c.sleep_ms, "wait_lc": c.wait_lc, "frame": c.frame, "orc": c.orc.json()})).collect::<Vec<_>>(),
+        "cmds": res.cmds.iter().map(|c| json!({"sleep_ms": c.sleep_ms, "wait_lc": c.wait_lc, "probe": c.probe, "frame": c.frame, "orc": c.orc.json()})).collect::<Vec<_>>(),
         "note": "frames contain absolute paths of the generated files; on replay the scratch directory is rewritten",
         "scratch": SCRATCH.get().cloned().unwrap_or_default(),
         "replies": res.results.iter().map(|r| json!(r.reply)).collect::<Vec<_>>(),
@@ -1403,7 +1816,7 @@ fn record(sink: &mut Sink, res: &SessionResult, kind: &str) {
 }
 
 fn fixed(cmds: &[(u64, &str, OrcS)], files: &Files) -> Vec<Cmd> {
-    cmds.iter().map(|(s, f, o)| Cmd { sleep_ms: *s, wait_lc: 0, frame: files.subst(f), orc: o.clone() }).collect()
+    cmds.iter().map(|(s, f, o)| Cmd { sleep_ms: *s, wait_lc: 0, probe: wants_probe(f), frame: files.subst(f), orc: o.clone() }).collect()
 }
 
 fn corpus(files: &Files) -> Vec<(&'static str, Vec<Cmd>)> {
@@ -1692,7 +2105,7 @@ fn sweep_cmds(b: &mut B, mode: u8) {
 
 fn state_sweeps(files: &Files) -> Vec<(&'static str, Vec<Cmd>)> {
     let open_small = (r#"open {"files":["@A"]}"#, OrcS::Open(Some((0u8, false, vec![]))));
-    let fin = |b: B| -> Vec<Cmd> { b.v.into_iter().map(|(s, f, o)| Cmd { sleep_ms: s, wait_lc: 0, frame: files.subst(&f), orc: o }).collect() };
+    let fin = |b: B, probes: bool| -> Vec<Cmd> { b.v.into_iter().map(|(s, f, o)| Cmd { sleep_ms: s, wait_lc: 0, probe: probes && (wants_probe(&f) || command_of(&f) == "open" || command_of(&f) == "close"), frame: files.subst(&f), orc: o }).collect() };
     let mut out = vec![];
     // closed
     {
@@ -1703,7 +2116,7 @@ fn state_sweeps(files: &Files) -> Vec<(&'static str, Vec<Cmd>)> {
         b.c(0, "close", OrcS::None);
         b.c(0, open_small.0, open_small.1.clone());
         b.c(0, "close", OrcS::None);
-        out.push(("sweep_closed", fin(b)));
+        out.push(("sweep_closed", fin(b, true)));
     }
     // open states in which streams are possible: (name, establish, paused)
     let est: Vec<(&'static str, Vec<(u64, &str, OrcS)>, bool)> = vec![
@@ -1720,6 +2133,12 @@ fn state_sweeps(files: &Files) -> Vec<(&'static str, Vec<Cmd>)> {
         for (s, f, o) in &e {
             b.c(*s, f, o.clone());
         }
+        if !paused {
+            // the state-changing pair early too (the state may be a short-lived one like "parsing")
+            for c in ["resume", "pause", "resume"] {
+                b.c(0, c, OrcS::None);
+            }
+        }
         b.c(0, r#"open {"files":["@B"]}"#, OrcS::Open(Some((0, false, vec![]))));
         sweep_cmds(&mut b, 0);
         b.c(0, r#"open {"files":["@ZA"]}"#, OrcS::Open(Some((0, false, vec![]))));
@@ -1734,7 +2153,7 @@ fn state_sweeps(files: &Files) -> Vec<(&'static str, Vec<Cmd>)> {
         }
         b.c(0, open_small.0, open_small.1.clone());
         b.c(0, "close", OrcS::None);
-        out.push((name, fin(b)));
+        out.push((name, fin(b, true)));
     }
     // collect:false
     {
@@ -1745,7 +2164,7 @@ fn state_sweeps(files: &Files) -> Vec<(&'static str, Vec<Cmd>)> {
         for c in ["resume", "pause", "resume", "close"] {
             b.c(0, c, OrcS::None);
         }
-        out.push(("sweep_collect_none", fin(b)));
+        out.push(("sweep_collect_none", fin(b, true)));
     }
     // one pass, paused (its initial state)
     {
@@ -1771,7 +2190,7 @@ fn state_sweeps(files: &Files) -> Vec<(&'static str, Vec<Cmd>)> {
         b.c(0, "pause", OrcS::None);
         b.c(0, "resume", OrcS::None);
         b.c(0, "close", OrcS::None);
-        out.push(("sweep_one_pass", fin(b)));
+        out.push(("sweep_one_pass", fin(b, true)));
     }
     // extraction pending: the window is short (a few passes of 50 ms), so one round per command:
     // open <slow archive>; [stream]; command; close
@@ -1817,9 +2236,40 @@ fn state_sweeps(files: &Files) -> Vec<(&'static str, Vec<Cmd>)> {
             }
             b.c(0, "close", OrcS::None);
         }
-        out.push((name, fin(b)));
+        // no sentinels here: the extraction window is only a few passes long
+        out.push((name, fin(b, false)));
     }
     out
+}
+
+/// plugin lists with 0..3 entries incl. duplicates x plugin_cmd for every name (always run): the lookup loop over
+/// the plugin states has to answer once - by the first plugin carrying the name - however many carry it
+fn plugin_matrix(files: &Files) -> Vec<(&'static str, Vec<Cmd>)> {
+    let base: Vec<&(&str, Option<(&str, bool)>)> = [0usize, 1, 6, 11, 4, 13].iter().map(|i| &PLUGIN_CFGS[*i]).collect();
+    let mut lists: Vec<Vec<&(&str, Option<(&str, bool)>)>> = vec![vec![]];
+    for a in &base {
+        lists.push(vec![*a]);
+        for b in &base {
+            lists.push(vec![*a, *b]);
+        }
+    }
+    for t in [[0usize, 0, 0], [6, 0, 6], [0, 6, 0], [6, 6, 0], [4, 0, 1], [11, 13, 11], [7, 6, 7], [2, 1, 0]] {
+        lists.push(t.iter().map(|i| &PLUGIN_CFGS[*i]).collect());
+    }
+    let mut sessions: Vec<Vec<Cmd>> = vec![vec![], vec![], vec![]];
+    for (k, l) in lists.iter().enumerate() {
+        let v = &mut sessions[k % 3];
+        let plugins: Vec<(String, bool)> = l.iter().filter_map(|c| c.1.map(|(n, h)| (n.to_string(), h))).collect();
+        let body = format!(r#"open {{"files":["@A"],"plugins":[{}]}}"#, l.iter().map(|c| c.0).collect::<Vec<_>>().join(","));
+        v.push(Cmd { sleep_ms: 0, wait_lc: 0, probe: true, frame: files.subst(&body), orc: OrcS::Open(Some((0, false, plugins))) });
+        for (i, name) in ["FileTransfer", "Rewrite", "SomeIp", "NonVerbose", "Nope"].iter().enumerate() {
+            let cmd = ["save", "foo"][(k + i) % 2];
+            v.push(Cmd { sleep_ms: 0, wait_lc: 0, probe: true, frame: format!(r#"plugin_cmd {{"name":"{}","cmd":"{}"}}"#, name, cmd), orc: OrcS::Json(3, name.to_string(), false) });
+        }
+        v.push(Cmd { sleep_ms: 0, wait_lc: 0, probe: true, frame: "close".into(), orc: OrcS::None });
+    }
+    let names = ["plugin_matrix_0", "plugin_matrix_1", "plugin_matrix_2"];
+    sessions.into_iter().enumerate().map(|(i, v)| (names[i], v)).collect()
 }
 
 /// structured histories under collect:one_pass_streams (ids are predictable in a fresh process): streams
@@ -1854,7 +2304,7 @@ fn one_pass_scenario(rng: &mut Rng, files: &Files, k: u64) -> Vec<Cmd> {
     v.push((200, r#"stream {"window":[0,3],"binary":true}"#.into(), OrcS::Stream(Some((false, 0, 3, 0, 0, 0, 0)))));
     v.push((0, "close".into(), OrcS::None));
     v.push((0, format!("zz_sentinel_p{}", k), OrcS::None));
-    v.into_iter().map(|(s, f, o)| Cmd { sleep_ms: s, wait_lc: 0, frame: files.subst(&f), orc: o }).collect()
+    v.into_iter().map(|(s, f, o)| Cmd { sleep_ms: s, wait_lc: 0, probe: wants_probe(&f), frame: files.subst(&f), orc: o }).collect()
 }
 
 fn main() {
@@ -1878,13 +2328,14 @@ fn main() {
             .as_array()
             .unwrap()
             .iter()
+            .filter(|x| !x["frame"].as_str().unwrap_or("").starts_with("zz_probe_")) // sentinels are sent anew (probe flag)
             .map(|x| {
                 let f = x["frame"].as_str().unwrap();
                 let frame = match c["scratch"].as_str() {
                     Some(old) if !old.is_empty() => f.replace(old, files.dir.to_str().unwrap()),
                     _ => rewrite_paths(f, &files),
                 };
-                Cmd { sleep_ms: x["sleep_ms"].as_u64().unwrap(), wait_lc: x["wait_lc"].as_u64().unwrap_or(0) as u32, frame, orc: OrcS::from_json(&x["orc"]) }
+                Cmd { sleep_ms: x["sleep_ms"].as_u64().unwrap(), wait_lc: x["wait_lc"].as_u64().unwrap_or(0) as u32, probe: x["probe"].as_bool().unwrap_or(false), frame, orc: OrcS::from_json(&x["orc"]) }
             })
             .collect();
         let res = run_session(Plan::Fixed(cmds), scratch.path(), "replay");
@@ -1905,6 +2356,9 @@ fn main() {
             plans.push((name.to_string(), Plan::Fixed(cmds)));
         }
         for (name, cmds) in state_sweeps(&files) {
+            plans.push((name.to_string(), Plan::Fixed(cmds)));
+        }
+        for (name, cmds) in plugin_matrix(&files) {
             plans.push((name.to_string(), Plan::Fixed(cmds)));
         }
     }
